@@ -874,6 +874,15 @@ func (db *DB) Close(ctx context.Context) (err error) {
 	db.syncState = syncState{}
 	db.mu.Unlock()
 
+	// Cached positions describe local LTX files that may be removed or
+	// replaced while the DB is closed (e.g. meta directory deleted); the next
+	// Open() must read them from disk again so that initialisation can detect
+	// a database that is behind its replica.
+	db.invalidatePosCache()
+	db.maxLTXFileInfos.Lock()
+	db.maxLTXFileInfos.m = make(map[int]*ltx.FileInfo)
+	db.maxLTXFileInfos.Unlock()
+
 	if sqlDB != nil {
 		if e := sqlDB.Close(); e != nil && err == nil {
 			err = e
